@@ -11,7 +11,7 @@
 From Coq Require Import List ZArith Bool Permutation.
 Import ListNotations.
 From LC Require Import Base Tree Fp Lookup Api ApiStep TreeFacts ApiFacts HookFacts
-  ScanAction FlexEngine Tokens Lexer Parser Reader.
+  ScanAction FlexEngine Tokens Lexer Parser Reader NewSetting.
 Local Open Scope Z_scope.
 
 (* destruction order: children first, in order, then the setting's own hook *)
@@ -113,3 +113,12 @@ Definition ex16 : list aop :=
    ORemove [] (Some [103])].                     (* releases 3, 2, 1 in this order *)
 Example ex16_events : dtors (snd (run_ev cfg_init ex16)) = [4; 3; 2; 1].
 Proof. reflexivity. Qed.
+
+(* the setting that config_setting_add returns is a NEW setting - no hook, no children, no source position - also when it
+   replaces a member of the same name under the override option: hook conservation alone (C16_step) would not exclude a
+   replacement that recycles the old node together with its hook *)
+Theorem C16_added_setting_has_no_hook : forall ov parent name tcode p2 idx victim,
+  n_add ov parent name tcode = Some (p2, idx, victim) ->
+  exists k, nth_error (s_kids p2) idx = Some k /\ s_hook k = None /\ s_kids k = [] /\ s_file k = None.
+Proof. exact n_add_new_setting. Qed.
+Print Assumptions C16_added_setting_has_no_hook.
